@@ -94,7 +94,8 @@ func (n *JSNode) prec() int {
 // JSOpts selects generator features.
 type JSOpts struct {
 	NoRegex          bool // no regular expression literals (the C04 oracle lexes the printed program)
-	PlainKeys        bool // object keys / pattern keys never coincide with variable names and no shorthand
+	PlainKeys        bool // object keys / pattern keys never coincide with variable names and no shorthand (unless Shorthand)
+	Shorthand        bool // with PlainKeys: shorthand properties {a} and shorthand pattern elements {a}, {a = 1} are generated
 	NoClassSelf      bool // class expressions never reference their own name (recorded known finding)
 	NoModuleItems    bool // no import/export
 	MaxStmts         int
@@ -400,7 +401,7 @@ func (g *jsGen) pattern(kind string, depth int) *JSNode {
 	}
 	n := &JSNode{K: "objpat"}
 	for i := 1 + r.Intn(3); i > 0; i-- {
-		if !g.o.PlainKeys && r.Intn(3) == 0 {
+		if (!g.o.PlainKeys || g.o.Shorthand) && r.Intn(3) == 0 {
 			// shorthand: {a} or {a = 1}
 			el := &JSNode{K: "patshort", Kids: []*JSNode{g.declare(kind)}}
 			if r.Intn(3) == 0 {
@@ -743,7 +744,7 @@ func (g *jsGen) object() *JSNode {
 	n := &JSNode{K: "object"}
 	for i := r.Intn(4); i > 0; i-- {
 		switch c := r.Intn(8); {
-		case c == 0 && !g.o.PlainKeys && g.noRefs == 0:
+		case c == 0 && (!g.o.PlainKeys || g.o.Shorthand) && g.noRefs == 0:
 			n.Kids = append(n.Kids, &JSNode{K: "propshort", Kids: []*JSNode{g.ref()}})
 		case c == 1:
 			n.Kids = append(n.Kids, &JSNode{K: "spread", Kids: []*JSNode{g.expr(3, pAssign)}})
